@@ -313,10 +313,12 @@ def h_carriers(ctx):
     present = [k for k in CARRIERS if ctx.flag("has_" + k)]
     spelling = ctx.pick("spelling", ("hyphen", "underscore"))
     bad = ctx.pick("malformed", ("none",) + tuple(present))
-    entry = ctx.pick("entry", ("library", "cli"))
+    entry = ctx.pick("entry", ("library", "cli", "cli-nested-targets-no-git"))
     d = Path(tempfile.mkdtemp(prefix="c05car-"))
+    cwd0 = os.getcwd()
     try:
-        (d / ".git").mkdir()
+        if entry != "cli-nested-targets-no-git":
+            (d / ".git").mkdir()        # otherwise the configuration file is the only thing that marks the project root
         (d / "src").mkdir()
         (d / "src" / "nest.ts").write_text(triggers.T["nest.ts"][3])       # documented depth 5
         (d / "src" / "magic.py").write_text(triggers.T["magic.py"][3])
@@ -329,13 +331,17 @@ def h_carriers(ctx):
         ctx.note("effective_carrier", eff)
         ctx.note("malformed", bad)
         ign.clear_ignore_parser_cache()
-        if entry == "cli":
+        if entry.startswith("cli"):
             from click.testing import CliRunner
             from src.cli_main import cli
             outs = {}
+            targets = [str(d)]
+            if entry == "cli-nested-targets-no-git":
+                os.chdir(d)
+                targets = ["src"] + ["skipme_" + k for k in CARRIERS]
             for cmd in ("nesting", "magic-numbers", "improper-logging"):
                 ign.clear_ignore_parser_cache()
-                r = CliRunner().invoke(cli, [cmd, "--format", "json", str(d)])
+                r = CliRunner().invoke(cli, [cmd, "--format", "json"] + targets)
                 outs[cmd] = r
             codes = {c: r.exit_code for c, r in outs.items()}
             if eff is not None and bad == eff:
@@ -372,6 +378,7 @@ def h_carriers(ctx):
         ctx.require("top-level-ignore-list-honoured-in-carrier", prints == want_prints, carrier=eff,
                     got=sorted(prints), want=sorted(want_prints))
     finally:
+        os.chdir(cwd0)
         shutil.rmtree(d, True)
         ign.clear_ignore_parser_cache()
 
